@@ -61,6 +61,12 @@ class Tr:
             return self.types[d]
         if ast.unparse(n) in self.types:
             return self.types[ast.unparse(n)]
+        if isinstance(n, ast.Subscript) and self.typ(n.value) == "dict":
+            return "str"
+        if isinstance(n, ast.Call) and isinstance(n.func, ast.Attribute) and n.func.attr == "strip":
+            return "str"
+        if isinstance(n, ast.Call) and isinstance(n.func, ast.Attribute) and n.func.attr == "get" and self.typ(n.func.value) == "dict":
+            return "str" if len(n.args) == 2 else "optstr"
         if isinstance(n, ast.Call) and self._helper_name(n) in self.helper_types:
             return self.helper_types[self._helper_name(n)]
         if isinstance(n, ast.IfExp):
@@ -96,6 +102,8 @@ class Tr:
                 return f"{self.state}.{d[5:].replace('.', '_')}"
             if isinstance(n, ast.Name):
                 return n.id
+            if isinstance(n, ast.Attribute) and self.types.get(self.dotted(n.value) or "") == "obj":
+                return f"{self.raw(n.value)}.{self.spec.get('attrs', {}).get(n.attr, n.attr)}"      # a field of a local structure value
             raise Unsupported(f"name {d}")
         if isinstance(n, ast.Constant):
             v = n.value
@@ -154,6 +162,11 @@ class Tr:
                 return f"({self.e(b)}).contains '{a.value}'"
             if isinstance(op, (ast.Is, ast.IsNot)) and isinstance(b, ast.Constant) and b.value is None:
                 return f"({self.raw(a)}).{'isNone' if isinstance(op, ast.Is) else 'isSome'}"
+            if isinstance(op, (ast.In, ast.NotIn)) and self.typ(b) == "dict":
+                t = f"(dictGet {self.e(b)} {self.e(a)}).isSome"
+                return t if isinstance(op, ast.In) else f"(!{t})"
+            if isinstance(op, ast.NotIn) and isinstance(a, ast.Constant) and isinstance(a.value, str) and len(a.value) == 1 and self.typ(b) == "str":
+                return f"(!({self.e(b)}).contains '{a.value}')"
             if isinstance(op, ast.NotIn):
                 return f"(!({self.e(b)}).contains {self.e(a)})"
             if isinstance(op, ast.In):
@@ -190,6 +203,14 @@ class Tr:
                 g = n.args[0].generators[0]
                 c = " && ".join(self.cond(x) for x in g.ifs) or "true"
                 return f"({self.e(g.iter)}).find? (fun {g.target.id} => {c})"       # an Option: `next((x for x in L if c), None)`
+            if isinstance(f, ast.Attribute) and f.attr == "strip" and not n.args and self.spec.get("strip"):
+                return f"({self.spec['strip']} {self.e(f.value)})"
+            if isinstance(f, ast.Attribute) and f.attr == "get" and self.typ(f.value) == "dict" and len(n.args) in (1, 2):
+                look = f"(dictGet {self.e(f.value)} {self.e(n.args[0])})"
+                return look if len(n.args) == 1 else f"({look}.getD {self.e(n.args[1])})"
+            if isinstance(f, ast.Attribute) and f.attr == "split" and len(n.args) == 1 and isinstance(n.args[0], ast.Constant) and len(n.args[0].value) == 1 \
+                    and self.spec.get("splitall"):
+                return f"({self.spec['splitall']} '{n.args[0].value}' {self.e(f.value)})"
             hn = self._helper_name(n)
             if hn is not None and self.dotted(f) not in self.spec.get("funcs", {}) and self._ensure_helper(hn):
                 return "(" + self._lean_helper(hn) + "".join(" " + self.e(a) for a in n.args) + ")"
@@ -197,6 +218,7 @@ class Tr:
                 args = n.args[0].elts if len(n.args) == 1 and isinstance(n.args[0], ast.Tuple) else n.args
                 return "(" + self.spec["funcs"][self.dotted(f)] + " " + " ".join(self.e(a) for a in args) + ")"
             if isinstance(f, ast.Name) and f.id in self.spec.get("ctors", {}) and not n.args:
+                self.types[src] = "obj"
                 lean, fields, fixed = self.spec["ctors"][f.id]
                 kws = {k.arg: k.value for k in n.keywords}
                 for k, want in fixed.items():
@@ -211,6 +233,12 @@ class Tr:
         if isinstance(n, ast.Subscript) and isinstance(n.slice, ast.UnaryOp) and isinstance(n.slice.op, ast.USub) \
                 and isinstance(n.slice.operand, ast.Constant) and n.slice.operand.value == 1:
             return f"(({self.e(n.value)}).getLast?.getD [])"
+        if (isinstance(n, ast.Subscript) and isinstance(n.slice, ast.Constant) and n.slice.value == 0 and isinstance(n.value, ast.Call)
+                and isinstance(n.value.func, ast.Attribute) and n.value.func.attr == "split" and len(n.value.args) == 1
+                and isinstance(n.value.args[0], ast.Constant) and len(n.value.args[0].value) == 1):
+            return f"(Url.cutAt '{n.value.args[0].value}' {self.e(n.value.func.value)}).1"       # text before the first separator (or all of it)
+        if isinstance(n, ast.Subscript) and isinstance(n.slice, ast.Constant) and isinstance(n.slice.value, str) and self.typ(n.value) == "dict":
+            return f"((dictGet {self.e(n.value)} {self.e(n.slice)}).getD [])"      # only behind an `in` guard
         if isinstance(n, ast.List) and not n.elts:
             return "[]"
         if isinstance(n, ast.List):
@@ -289,6 +317,21 @@ class Tr:
             raise Unsupported(f"statement {ast.unparse(s)[:40]}")
         if isinstance(s, ast.Return):
             return ind + self.ret(s.value)
+        if (isinstance(s, ast.Assign) and len(s.targets) == 1 and isinstance(s.targets[0], ast.Tuple) and len(s.targets[0].elts) == 2
+                and all(isinstance(x, ast.Name) for x in s.targets[0].elts) and isinstance(s.value, ast.Call) and isinstance(s.value.func, ast.Attribute)
+                and s.value.func.attr == "split" and len(s.value.args) == 2 and isinstance(s.value.args[0], ast.Constant) and len(s.value.args[0].value) == 1
+                and isinstance(s.value.args[1], ast.Constant) and s.value.args[1].value == 1):
+            # `a, b = x.split(c, 1)` (reached only when c occurs in x, else Python raises): the text before / after the first c
+            a, b = (x.id for x in s.targets[0].elts)
+            self.types[a] = self.types[b] = "str"
+            return f"{ind}let ({a}, {b}) := Url.cutAt '{s.value.args[0].value}' {self.e(s.value.func.value)}\n" + self.block(rest, ind)
+        if isinstance(s, ast.Assign) and len(s.targets) == 1 and isinstance(s.value, ast.Call) and self.dotted(s.value.func) in self.spec.get("raising_funcs", {}) \
+                and isinstance(s.targets[0], ast.Name):
+            fn, wrap = self.spec["raising_funcs"][self.dotted(s.value.func)]
+            x = s.targets[0].id
+            args = " ".join(self.e(a) for a in s.value.args)
+            self.types[x] = "obj"
+            return f"{ind}match {fn} {args} with\n{ind}| .error e => .error ({wrap} e)\n{ind}| .ok {x} =>\n" + self.block(rest, ind + "  ")
         if isinstance(s, ast.Assign) and len(s.targets) == 1:
             t = s.targets[0]
             d = self.dotted(t)
@@ -302,6 +345,9 @@ class Tr:
             self.types.setdefault(d, self.typ(s.value))
             return f"{ind}let {d} := {val}\n" + self.block(rest, ind)
         if isinstance(s, ast.AnnAssign) and isinstance(s.target, ast.Name) and s.value is not None:
+            if isinstance(s.value, ast.Dict) and not s.value.keys:
+                self.types[s.target.id] = "dict"
+                return f"{ind}let {s.target.id} : Dict := []\n" + self.block(rest, ind)
             self.types.setdefault(s.target.id, "list" if isinstance(s.value, ast.List) else self.typ(s.value))
             return f"{ind}let {s.target.id} := {self.e(s.value)}\n" + self.block(rest, ind)
         if isinstance(s, ast.AugAssign):
@@ -378,10 +424,16 @@ class Tr:
             raise Unsupported("for loop shape")
         if isinstance(s, ast.Try) and len(s.body) == 1 and isinstance(s.body[0], ast.Assign) and len(s.handlers) == 1 and not s.orelse and not s.finalbody:
             call = ast.unparse(s.body[0].value)
+            v0 = s.body[0].value
+            if call not in self.opaque and isinstance(v0, ast.Call) and self.dotted(v0.func) in self.spec.get("optfuncs", {}):
+                self.opaque[call] = "(" + self.spec["optfuncs"][self.dotted(v0.func)] + " " + " ".join(self.e(a) for a in v0.args) + ")"
             if call not in self.opaque or ast.unparse(s.handlers[0].type) != "ValueError":
                 raise Unsupported(f"try around {call}")
             x = s.body[0].targets[0].id
             h = s.handlers[0].body
+            if len(h) == 1 and isinstance(h[0], ast.Raise) and self.spec.get("mode") == "except":
+                self.types[x] = "num"
+                return f"{ind}match {self.opaque[call]} with\n{ind}| none => .error {self.error_of(h[0].exc)}\n{ind}| some {x} =>\n" + self.block(rest, ind + "  ")
             if len(h) != 1 or not isinstance(h[0], ast.Return):
                 raise Unsupported("except body")
             return f"{ind}match {self.opaque[call]} with\n{ind}| none => {self.ret(h[0].value)}\n{ind}| some {x} =>\n" + self.block(rest, ind + "  ")
@@ -589,6 +641,10 @@ class Tr:
         for n in ast.walk(ast.Module(body=list(body), type_ignores=[])):
             if isinstance(n, ast.Call) and isinstance(n.func, ast.Attribute) and n.func.attr in ("append", "pop") and isinstance(n.func.value, ast.Name):
                 names.add(n.func.value.id)
+            elif isinstance(n, ast.Assign) and len(n.targets) == 1 and isinstance(n.targets[0], ast.Subscript) and isinstance(n.targets[0].value, ast.Name):
+                names.add(n.targets[0].value.id)            # `d[k] = v`
+            elif isinstance(n, ast.Assign) and len(n.targets) == 1 and isinstance(n.targets[0], ast.Tuple):
+                pass                                        # `a, b = x.split(c, 1)` inside the body
             elif isinstance(n, (ast.Return, ast.Assign, ast.AugAssign, ast.Await, ast.For, ast.While, ast.Break)):
                 return None
         return names.pop() if len(names) == 1 else None
@@ -608,6 +664,14 @@ class Tr:
             then = list(s.body) + ([] if ends else rest)
             orelse = list(s.orelse) + ([] if ends_else else rest)       # if / elif / else chains as well as `if …: continue`
             return f"{ind}if {self.cond(s.test)} then\n{self.accbody(then, acc, ind + '  ')}\n{ind}else\n{self.accbody(orelse, acc, ind + '  ')}"
+        if (isinstance(s, ast.Assign) and len(s.targets) == 1 and isinstance(s.targets[0], ast.Tuple) and len(s.targets[0].elts) == 2
+                and isinstance(s.value, ast.Call) and isinstance(s.value.func, ast.Attribute) and s.value.func.attr == "split" and len(s.value.args) == 2
+                and isinstance(s.value.args[0], ast.Constant) and len(s.value.args[0].value) == 1 and getattr(s.value.args[1], "value", None) == 1):
+            a, b = (x.id for x in s.targets[0].elts)
+            self.types[a] = self.types[b] = "str"
+            return f"{ind}let ({a}, {b}) := Url.cutAt '{s.value.args[0].value}' {self.e(s.value.func.value)}\n" + self.accbody(rest, acc, ind)
+        if isinstance(s, ast.Assign) and len(s.targets) == 1 and isinstance(s.targets[0], ast.Subscript) and ast.unparse(s.targets[0].value) == acc:
+            return f"{ind}let {acc} := dictSet {acc} {self.e(s.targets[0].slice)} {self.e(s.value)}\n" + self.accbody(rest, acc, ind)
         if isinstance(s, ast.Expr) and isinstance(s.value, ast.Call) and isinstance(s.value.func, ast.Attribute) and ast.unparse(s.value.func.value) == acc:
             if s.value.func.attr == "append" and len(s.value.args) == 1:
                 return f"{ind}let {acc} := {acc} ++ [{self.e(s.value.args[0])}]\n" + self.accbody(rest, acc, ind)
@@ -657,6 +721,21 @@ SPECS = [
          ret_types=["bool", "optstr"],
          types={"path": "str", "candidates": "list", "candidate": "str", "rule": "optobj", "self._find_matching_rule(candidate)": "optobj",
                 "client_cert_fingerprint": "optfp", "rule.allowed_fingerprints": "optlist", "rule.require_cert": "bool"}),
+    dict(name="titanParams", file="protocol/request.py", cls=None, func="_parse_titan_params", strip="Srv.stripWs", splitall="Srv.splitAll",
+         header="def titanParams (params_str : List Char) : Dict :=",
+         types={"params_str": "str", "params": "dict", "part": "str", "key": "str", "value": "str"}),
+    dict(name="titanFromLine", file="protocol/request.py", cls="TitanRequest", func="from_line", mode="except",
+         header=("def titanFromLine (paramsOf : List Char → Dict) (parse : List Char → Except Url.Err Url.Parsed) (line : List Char) :\n"
+                 "    Except TErr TitanReq :="),
+         funcs={"_parse_titan_params": "paramsOf"}, optfuncs={"int": "Srv.pyInt"}, raising_funcs={"parse_url": ("parse", "TErr.url")},
+         ctors={"ParsedURL": ("Url.Parsed", {"hostname": "host", "port": "port", "path": "path", "query": "query", "normalized": "normalized"},
+                              {"scheme": "'titan'", "fragment": "parsed.fragment"}),
+                "cls": ("TitanReq", {"raw_url": "raw", "parsed_url": "parsed", "size": "size", "mime_type": "mime", "token": "token"}, {})},
+         attrs={"hostname": "host"},
+         errors={"Titan URL must start with": ".notTitan", "Titan URL must contain parameters": ".noParams", "Titan URL must contain size": ".noSize",
+                 "Invalid size parameter": ".badSize", "Size must be non-negative": ".negSize"},
+         types={"line": "str", "url_part": "str", "params_str": "str", "params": "dict", "_parse_titan_params(params_str)": "dict", "size": "num", "gemini_url": "str",
+                "parsed": "obj", "parsed.hostname": "str", "parsed.path": "str", "parsed.query": "str", "parsed.normalized": "str", "parsed.port": "num"}),
     dict(name="parseUrl", file="utils/url.py", cls=None, func="parse_url", mode="except", numfmt="Url.natToStr",
          header=("def parseUrl (url scheme : Url.Str) (hostname username password : Option Url.Str) (fragment : Url.Str) (splitR : Except Url.Err Unit)\n"
                  "    (portR : Except Url.Err (Option Nat)) (path netloc query : Url.Str) : Except Url.Err Url.Parsed :="),
@@ -692,6 +771,9 @@ def find_func(tree, cls, func):
     return None
 
 
+# a Python dict with string keys: Misc/PyDict.lean (association list; assignment appends, lookup takes the LAST binding)
+DICT_PRELUDE = ["open Py", ""]
+
 PRELUDE = {
     "consume": (["NauyacaVerif.Mw.Acl"], ["structure BucketSt where", "  capacity : Rat", "  refill_rate : Rat", "  tokens : Rat", "  last_update : Rat", ""]),
     "isAllowed": (["NauyacaVerif.Mw.Acl"], []),
@@ -700,6 +782,10 @@ PRELUDE = {
     "canonicalPath": ([], []),
     "parseUrl": (["NauyacaVerif.Url.Basic", "NauyacaVerif.Gen.Params"], []),
     "findRule": (["NauyacaVerif.Mw.Cert"], []),
+    "titanParams": (["NauyacaVerif.Srv.Conn", "NauyacaVerif.Misc.PyDict"], DICT_PRELUDE),
+    "titanFromLine": (["NauyacaVerif.Srv.Conn", "NauyacaVerif.Misc.PyDict"], DICT_PRELUDE + [
+        "inductive TErr where", "  | notTitan | noParams | noSize | badSize | negSize | url (e : Url.Err)", "deriving Repr, DecidableEq", "",
+        "structure TitanReq where", "  raw : List Char", "  parsed : Url.Parsed", "  size : Int", "  mime : List Char", "  token : Option (List Char)", "deriving Repr", ""]),
     "certProcess": (["NauyacaVerif.Mw.Cert"], []),
 }
 
